@@ -743,6 +743,16 @@ def gen_task(loader, check, what, types="T8", kinds=None, replay_on=True, sectio
         finally:
             check.ob_filter = saved
         return
+    if what == "cast-types":
+        # the type a cast converts to is the C type its type name spells: the type callbacks on the real parse trees (generator of C01)
+        from . import c01
+        saved = getattr(check, "ob_filter", None)
+        check.ob_filter = r"^cast-type#"
+        try:
+            c01.gen_types(loader, check, replay_on)
+        finally:
+            check.ob_filter = saved
+        return
     if what == "emission":
         gen_emission(loader, check, tps, kinds, replay_on)
     elif what == "ite":
@@ -759,6 +769,7 @@ def tasks_for(tier):
     ts = [{"what": "emission", "types": types, "kinds": [k]} for k in irkit.BV_KINDS]
     ts.append({"what": "ite", "types": types})
     ts.append({"what": "chained-assignment"})
+    ts.append({"what": "cast-types"})
     ts.append({"what": "chains", "depth": 2})
     if tier == "thorough":
         ts.append({"what": "chains", "depth": 3})
@@ -775,6 +786,7 @@ def generate_reduced(loader, check):
     gen_ite_lowering(loader, check, [(True, 32), (False, 8)], False)
     gen_callbacks(loader, check, [(True, 8), (False, 8), (True, 32), (False, 64)], ["Variable", "CompareOp"], False)
     gen_task(loader, check, "chained-assignment", replay_on=False)
+    gen_task(loader, check, "cast-types", replay_on=False)
 
 
 def run(check: Check):
